@@ -164,11 +164,6 @@ fn compute_block_facts<'ast, 'arena>(
                         note_use(&mut uses, &defs, local, local_start);
                     }
                 }
-                for &local in &summary.transitive_capture_writes {
-                    if facts.locals[local.0 as usize].owner == function {
-                        note_def(&mut defs, local, local_start);
-                    }
-                }
             }
 
             // The statement's own write happens after its operands, including the calls
@@ -197,14 +192,6 @@ fn apply_op_transfer(
     for &local in &op.writes {
         clear_local(live, local, local_start);
     }
-    for &callee in &op.direct_callees {
-        for &local in &summaries[callee.0 as usize].transitive_capture_writes {
-            if facts.locals[local.0 as usize].owner == function {
-                clear_local(live, local, local_start);
-            }
-        }
-    }
-
     for &local in &op.reads {
         set_local(live, local, local_start);
     }
